@@ -146,6 +146,14 @@ package compile
 //@   ensures(needsprefix) !scopeHasType(scope, r.Name) && err == nil ==> i > 0 && scopeHasInclude(scope, substr(r.Name, 0, i))
 //@   ensures(included) !scopeHasType(scope, r.Name) && err == nil && scopeHasType(scopeInclude(scope, substr(r.Name, 0, i)), substr(r.Name, i + 1, len(r.Name))) ==> lastLinkedType(nil) == scopeType(scopeInclude(scope, substr(r.Name, 0, i)), substr(r.Name, i + 1, len(r.Name)))
 
+//@ contract lookupEnum
+//@   props C07
+//@   pure
+//@   nopanic
+//@   ensures(direct) result1 <==> (scopeHasType(scope, name) && typeis(scopeType(scope, name), *EnumSpec))
+//@   ensures(value) result1 ==> result0 == scopeType(scope, name).(*EnumSpec)
+//@   ensures(none) !result1 ==> result0 == nil
+
 //@ contract (*Module).LookupType
 //@   props C07
 //@   pure
@@ -184,7 +192,6 @@ package compile
 
 //@ contract (*ServiceSpec).Link
 //@   props C08 C09
-//@   requires s != nil
 //@   modifies all
 //@   loop 1: invariant (p == parent || parent != s) && parent != nil && s != nil
 //@   loop 2: invariant s != nil && (old(s.parentSrc) != nil ==> s.Parent != s && s.Parent != nil)
@@ -203,7 +210,6 @@ package compile
 
 //@ contract (*Constant).Link
 //@   props C08 C09
-//@   requires c != nil
 //@   modifies all
 //@   ensures(restored) !old(c.linkOnce) ==> !c.linking
 
@@ -238,6 +244,43 @@ package compile
 //@   loop 1: decreases len(f) - ridx
 //@   ensures(found) result ==> exists(k, 0, len(f), f[k] == s)
 //@   ensures(absent) !result ==> forall(k, 0, len(f), f[k] != s)
+
+// findTypeCycles: body = make(typeCycleFinder, 0).Visit(t); the contract only records
+// (ghost) that the search ran on t.
+//@ contract findTypeCycles
+//@   trusted
+//@   modifies cycChecked(nil)
+//@   ensures cycChecked(nil) == setadd(old(cycChecked(nil)), t)
+
+//@ contract (typeCycleFinder).cloneWithPart
+//@   props C08
+//@   nopanic
+//@   modifies nothing
+//@   ensures(len) len(result) == len(f) + 1
+//@   ensures(last) result[len(f)] == s
+//@   ensures(prefix) forall(k, 0, len(f), result[k] == f[k])
+
+// a typedef met again on the current chain is a cycle error; structs cut chains
+//@ contract (typeCycleFinder).Visit
+//@   props C08
+//@   modifies all
+//@   ensures(cycle) typeis(s, *TypedefSpec) && old(exists(k, 0, len(f), f[k] == s)) ==> err != nil
+//@   ensures(nontypedef) !typeis(s, *TypedefSpec) && old(exists(k, 0, len(f), f[k] == s)) ==> err == nil
+
+// every typedef of the module goes through the cycle search before link succeeds
+//@ contract (compiler).link
+//@   props C08
+//@   requires m != nil && m.Types != nil
+//@   modifies all, cycChecked(nil)
+//@   loop 1: invariant types != nil && fresh(types) && forall(k, Str, visited(k) ==> has(types, k) && types[k] == old(m.Types[k]))
+//@   loop 1: invariant forall(k, Str, has(types, k) ==> old(has(m.Types, k)) && types[k] == old(m.Types[k]))
+//@   loop 1: invariant(kept) m.Types == old(m.Types) && forall(k, Str, (has(m.Types, k) <==> old(has(m.Types, k))) && m.Types[k] == old(m.Types[k]))
+//@   loop 2: invariant(typeskept) forall(k, Str, (has(types, k) <==> old(has(m.Types, k))) && (has(types, k) ==> types[k] == old(m.Types[k])))
+//@   loop 3: invariant(typeskept) forall(k, Str, (has(types, k) <==> old(has(m.Types, k))) && (has(types, k) ==> types[k] == old(m.Types[k])))
+//@   loop 4: invariant(typeskept) forall(k, Str, (has(types, k) <==> old(has(m.Types, k))) && (has(types, k) ==> types[k] == old(m.Types[k])))
+//@   loop 5: invariant(typeskept) forall(k, Str, (has(types, k) <==> old(has(m.Types, k))) && (has(types, k) ==> types[k] == old(m.Types[k])))
+//@   loop 5: invariant forall(k, Str, visited(k) && typeis(types[k], *TypedefSpec) ==> cycChecked(nil)[types[k]])
+//@   ensures(allchecked) err == nil ==> forall(k, Str, old(has(m.Types, k)) && typeis(old(m.Types[k]), *TypedefSpec) ==> cycChecked(nil)[old(m.Types[k])])
 
 // include cycles are cut because a module is registered before its includes are gathered
 //@ contract (compiler).gather
